@@ -616,3 +616,16 @@ def c01_7(ctx: Ctx) -> RuleResult:
         i.rule = "C01.7"
     r.rule, r.title = "C01.7", "every NaN in a realization's objectives or constraints marks the realization as failed (so that it gets zero weight)"
     return r
+
+
+@rule(P)
+def c01_8(ctx: Ctx) -> RuleResult:
+    """Shared with C03.5: which realizations count as failed for the reported function values."""
+    from .c03 import c03_5
+
+    r = c03_5(ctx)
+    r.instances = [i for i in r.instances if "function flags" in i.construct]
+    for i in r.instances:
+        i.rule = "C01.8"
+    r.rule, r.title, r.floor = "C01.8", "the realizations given zero weight in the function values are those whose unperturbed evaluation failed (nothing else)", 1
+    return r
